@@ -109,6 +109,10 @@ def make_jobs(tier):
                 plan.append(("A", _cfg(ts, main, None, 3), ALPHA_FULL, False))
         for ts in wide3[1:3]:
             plan.append(("A", _cfg(ts, True, "refused", 3), ALPHA_FULL, False))
+        # a 'connectfailure' listener that itself fails: retry decisions are as without it
+        for ts in ([T(W, 2)], [T(W, 1), T(R, 0)]):
+            for f in ("refused", "never", None):
+                plan.append(("A", dict(_cfg(ts, f is None, f, 3), cf="raises"), ALPHA_FULL, False))
         # family B: stop() at every point of every sequence of <= 3 outcomes
         for ts, main in (([T(W, 1)], True), ([T(W, 1)], False), ([T(R, 0)], True),
                          ([T(W, 1), T(R, 0)], True), ([T(R, 0), T(W, 1)], False)):
@@ -149,6 +153,10 @@ def make_jobs(tier):
                          ([T(R, 0), T(W, 1)], True), ([T(W, 0)], True), ([T(W, 0)], False),
                          ([T(R, 1)], True), ([T(R, 1)], False)):
             plan.append(("B", _cfg(ts, main, None, 3), ALPHA_FULL, True))
+        for ts in ([T(W, 2)], [T(R, 1)], [T(W, 1), T(R, 0)], [T(R, 0), T(W, 2)]):
+            for main in (False, True):
+                for f in ("refused", "never", "always", None):
+                    plan.append(("A", dict(_cfg(ts, main, f, 4), cf="raises"), ALPHA_FULL, False))
         for ts in ([T(W, 2)], [T(R, -1)], [T(W, 0), T(R, 1), T(W, 0)], [T(W, -1), T(R, 1)]):
             for main in (False, True):
                 for f in (None, "refused"):
@@ -199,7 +207,7 @@ def main(ctx):
         ctx.require("stop_" + ph)
     for k in ("exhausted_observed", "success_observed", "fw_tx", "fw_aio",
               "attempts_websocket", "attempts_rawsocket", "fatal_classified", "first_attempt_undelayed",
-              "retry_waits_checked", "wait_at_cap", "jitter_draws", "sessions_with_all_listeners",
+              "retry_waits_checked", "wait_at_cap", "jitter_draws", "sessions_with_all_listeners", "failing_listener_reported",
               "horizon_truncated", "unlimited_retries_configs", "replayed_for_determinism",
               "stop_while_retry_timer", "stop_success_observed", "budget_reset_after_join"):
         ctx.require(k)
@@ -212,7 +220,8 @@ def cfg_id(cfg):
     return "%s|%s|fatal=%s|z=%g" % (
         "+".join("%s%d" % ("ws" if t["type"] == "websocket" else "rs", t["max_retries"])
                  for t in cfg["transports"]),
-        "main" if cfg["main"] else "nomain", cfg["is_fatal"], cfg["z"])
+        "main" if cfg["main"] else "nomain", cfg["is_fatal"], cfg["z"]) + (
+        "|cf=" + cfg["cf"] if cfg.get("cf") else "")
 
 
 def _tt(cfg, idx):
@@ -240,8 +249,11 @@ def judge(cfg, obs, fw, stats=None):
     seq = []
     prev_end = 0.0
     answers = {}
+    answers_name = {}
+    misjudged = []
     for name, r, n in obs["fatal_calls"]:
         answers.setdefault(n, r)
+        answers_name.setdefault(n, name)
     for a in atts:
         wait = None if prev_end is None else round(a["t"] - prev_end, 9)
         ans = None
@@ -252,6 +264,7 @@ def judge(cfg, obs, fw, stats=None):
                     bump("classifier_not_consulted")
                 elif ans != R.is_fatal(cfg["is_fatal"], a["outcome"]):
                     bump("classifier_given_unexpected_error")
+                    misjudged.append((a["n"], a["idx"], a["outcome"], ans, answers_name.get(a["n"])))
         seq.append((a["idx"], a["outcome"], wait, ans))
         if a["t_end"] is None:
             prev_end = None
@@ -270,6 +283,12 @@ def judge(cfg, obs, fw, stats=None):
         clause, shape, detail = p[0], p[1], p[2]
         tidx = p[3] if len(p) > 3 else None
         out.append(("C14|%s|%s|%s|%s|%s" % (clause, shape, mainflag, _tt(cfg, tidx), fw), detail))
+    for (n, idx, outcome, ans, name) in misjudged[:1]:
+        # "none after an error classified as fatal": the classifier has to be asked about the error that
+        # ended the attempt, not about some other exception
+        out.append(("C14|classifier-given-other-error|%s|%s|%s|%s" % (outcome, mainflag, _tt(cfg, idx), fw),
+                    "attempt %d (transport %d) ended with outcome %r but the is_fatal classifier was handed a %s "
+                    "(answered %r)" % (n, idx, outcome, name, ans)))
     done = obs["done"]
     seq_bad = bool(out)
     # ---- stop(): result ok  (only if everything up to the stop was in order: first divergence)
@@ -319,6 +338,9 @@ def judge(cfg, obs, fw, stats=None):
     for e in errs:
         if any(m in e for m in _NONE_COMPLETE) and ghost:
             continue        # the same defect as done-twice|complete-after-done
+        if cfg.get("cf") == "raises" and "connectfailure listener failed" in e:
+            bump("failing_listener_reported")
+            continue        # the application's own listener error, reported through the error log
         if "Task was destroyed but it is pending" in e:
             continue        # artefact of tearing down an execution cut by the horizon
         name = e.split(":", 1)[0]
